@@ -211,6 +211,21 @@ pub fn run_generic(cx: &mut Ctx, fmt: Fmt) {
             check_compress(c, fmt, &lzgen::de_bruijn(11), "de_bruijn(2,11)");
         });
     }
+    if !miri {
+        // lengths around multiples of 64 KiB (every byte of the 24-bit length field matters), with a
+        // poorly compressible tail so that the compressed size stays in a different 64 KiB bracket
+        for &n in &[65_400usize, 65_535, 65_536, 65_537, 131_071, 131_072, 196_700] {
+            cx.case("around_64KiB_multiples", |c| {
+                c.sit("around_64KiB_multiples");
+                let mut rng = crate::prng::Rng::new(n as u64);
+                let pat = rng.bytes(7);
+                let tail = 3000 + (n % 2500);
+                let mut v = lzgen::periodic(&pat, n - tail);
+                v.extend(rng.bytes(tail));
+                check_compress(c, fmt, &v, &format!("periodic(p=7)+random tail, n={}", n));
+            });
+        }
+    }
     if !miri && cx.a.scale >= 0.49 {
         // the largest input the 24-bit length field can describe
         cx.case("largest_input_2^24-1", |c| {
@@ -252,7 +267,7 @@ pub fn run_generic(cx: &mut Ctx, fmt: Fmt) {
     }
 }
 
-pub const REQUIRED: &[&str] = &["small_alphabet_exhaustive", "boundary_lengths", "ref_disp_4096", "ref_overlapping", "ref_len_18", "ends_inside_flag_group", "window_edge_period", "largest_input"];
+pub const REQUIRED: &[&str] = &["small_alphabet_exhaustive", "boundary_lengths", "ref_disp_4096", "ref_overlapping", "ref_len_18", "ends_inside_flag_group", "window_edge_period", "largest_input", "around_64KiB_multiples"];
 
 pub fn run(cx: &mut Ctx) {
     if !cfg!(miri) {
